@@ -24,7 +24,7 @@ RULE = ("aligned generated scores (1-3 parts, optional group, divisions per part
 ASSUMPTIONS = ["exact quarter positions from vmon/refmodels/timemaps.py; parts start at timeline 0 with their signature there",
                "import grouping: same (track, channel) => same (part, voice) for every mode; the converse for modes 0,1,3,4,5 only "
                "(import mode 2 ignores channels by documentation)",
-               "time_sig_change policy rewrites time signatures by design: their positions are judged for the other two policies only",
+               "time_sig_change policy gives measures of irregular length a signature of their own by design: a notated signature is expected at its position unless such a measure begins there",
                "at most 15 voices per part; no two notes of equal pitch overlap (disjoint pitch bands)"]
 MIN_HOOKS = {"save_score_midi": {"quick": 1000, "thorough": 12000}}
 MIN_NONTRIVIAL = {"quick": 400, "thorough": 5000}
@@ -206,7 +206,20 @@ def check_export(ctx, score_data, mf, mode, velocity, policy, min_ppq):
                     ctx.violation("time-signature-at-wrong-position", f"track {ti}: {got_ts[:6]}, part {p.id} implies {sorted(exp_ts)[:6]}", w)
                     return None
             else:
-                ctx.ambiguous()
+                # this policy gives every measure of irregular length a signature of its own (by design); a notated signature
+                # is still written at its position unless such a measure begins exactly there
+                got_ts = sorted((t, msg.numerator, msg.denominator) for t, msg in evs[ti] if msg.type == "time_signature")
+                irregular = set()
+                for ms_ in timemaps.objects_of(p, S.Measure):
+                    (b_, bt_, _), amb_ = sigmaps.ts_at(ds, int(ms_.start.t))
+                    if amb_ or (m.beat(int(ms_.end.t)) - m.beat(int(ms_.start.t))) != b_:
+                        irregular.add(int(ms_.start.t))
+                exp_ts = [(int(tick(m, t)), b, bt) for (t, b, bt, _) in ds["ts"] if t not in irregular]
+                ctx.check()
+                if not all(e in got_ts for e in exp_ts):
+                    ctx.violation("time-signature-missing-under-time_sig_change", f"track {ti}: {got_ts[:6]}, part {p.id} notates {sorted(exp_ts)[:6]} "
+                                  f"(measures of irregular length begin at {sorted(irregular)[:6]})", w)
+                    return None
         tempos = timemaps.objects_of(p, S.Tempo)
         got_tp = sorted((t, msg.tempo) for t, msg in evs[0] if msg.type == "set_tempo")
         for tp in tempos:
@@ -303,13 +316,21 @@ def check_reimport(ctx, mf, info, mode):
                 continue
             ti = next(iter(tis))
             written, tick = [], 0
+            per_tick = collections.defaultdict(set)
             for msg in mf.tracks[ti]:
                 tick += msg.time
                 if msg.type == "time_signature":
                     row = (Fraction(tick, ppq), msg.numerator, msg.denominator)
+                    per_tick[tick].add(row[1:])
                     if not written or written[-1][1:] != row[1:]:
                         written.append(row)
             if not written:
+                continue
+            if any(len(v) > 1 for v in per_tick.values()):
+                # several different signatures written on one tick (parts sharing a track, or the time_sig_change policy's own
+                # signatures next to notated ones): which of them is in force there is not something a file can state
+                ctx.ambiguous()
+                ctx.extra["tracks_with_several_time_signatures_on_one_tick"] += 1
                 continue
             q = int(part.quarter_durations()[0][1])
             got_ts = []
@@ -390,6 +411,30 @@ def run_item(ctx, item):
         p, m_ = gen_score.make_part(rng, f"P{i + 1}", features=f2, divs=rng.choice(cands), skeleton=meta0["skeleton"], band_base=5 * i)
         parts.append(p)
         metas.append(m_)
+    # a key released in one voice and struck again at once in another voice of the part (the notes touch, they do not overlap):
+    # in the modes that put the voices of a part on one channel the file still has to denote two notes
+    for p in parts:
+        if rng.random() < 0.35:
+            plain = [n for n in timemaps.objects_of(p, S.Note, exact=True) if n.tie_next is None and n.tie_prev is None and n.end.t > n.start.t]
+            by_start = collections.defaultdict(list)
+            for n in plain:
+                by_start[int(n.start.t)].append(n)
+            done = 0
+            for a in rng.sample(plain, len(plain)):
+                for b in by_start.get(int(a.end.t), []):
+                    if b.voice == a.voice or done >= 2:
+                        continue
+                    pitch = a.midi_pitch
+                    # (a grace note of that pitch on the same position has no extent: whether it "overlaps" is left open)
+                    clash = any(o is not a and o is not b and o.midi_pitch == pitch and
+                                ((o.start.t < b.end.t and o.end.t > b.start.t) or (o.start.t == o.end.t and b.start.t <= o.start.t <= b.end.t))
+                                for o in timemaps.objects_of(p, S.Note, exact=False))
+                    if clash or any(o is not b and o.start.t == b.start.t and o.voice == b.voice and o.midi_pitch == pitch for o in plain):
+                        continue
+                    b.step, b.alter, b.octave = a.step, a.alter, a.octave
+                    done += 1
+            if done:
+                ctx.extra["parts_with_a_pitch_released_and_struck_again_across_voices"] += 1
     for p in parts:
         if rng.random() < 0.4:
             starts = sorted({int(n.start.t) for n in p.notes})
